@@ -106,7 +106,7 @@ FieldItem(s, it, pos) ==
     [] OTHER -> R(s, one("unknown"))
 
 (* Variant options: InputVariant::parse_nested (input_variant.rs:89-124)   *)
-VariantInit == [rename |-> FALSE, skip |-> FALSE, word |-> "none"]
+VariantInit == [rename |-> FALSE, skip |-> "none", word |-> "none"]     \* skip: "none" / "true" / "false" - `skip = false` is given but does not skip
 VariantItem(s, it, pos, style) ==
   LET n == it.name f == it.form bad == ~GoodForm(n, f)
       R(s2, ds) == [s |-> s2, d |-> ds]
@@ -114,7 +114,7 @@ VariantItem(s, it, pos, style) ==
   IN
   CASE n \in AttrSyntax -> R(s, one("attr-syntax"))
     [] n = "rename" -> IF s.rename THEN R(s, one("dup")) ELSE IF bad THEN R(s, one("form")) ELSE R([s EXCEPT !.rename = TRUE], <<>>)
-    [] n = "skip" -> IF s.skip THEN R(s, one("dup")) ELSE IF bad THEN R(s, one("form")) ELSE R([s EXCEPT !.skip = TRUE], <<>>)
+    [] n = "skip" -> IF s.skip # "none" THEN R(s, one("dup")) ELSE IF bad THEN R(s, one("form")) ELSE R([s EXCEPT !.skip = IF Truthy(f) THEN "true" ELSE "false"], <<>>)
     [] n = "word" ->
          IF s.word # "none" THEN R(s, one("dup"))
          ELSE IF style # "unit" THEN R(s, one("word-nonunit"))
@@ -241,7 +241,7 @@ BodyDiags ==
     [] shape = "enum" ->
          IF elem THEN <<Dg("body-unrepresentable", <<"v1", 0>>)>> \o (IF v2.present THEN <<Dg("body-unrepresentable", <<"v2", 0>>)>> ELSE <<>>)   \* one per variant
          ELSE v1.d \o v2.d
-              \o (IF v1.d = <<>> /\ TupleN(V1Style) /\ ~v1.s.skip THEN <<Dg("body-unrepresentable", <<"v1", 0>>)>> ELSE <<>>)   \* a skipped variant is never parsed
+              \o (IF v1.d = <<>> /\ TupleN(V1Style) /\ v1.s.skip # "true" THEN <<Dg("body-unrepresentable", <<"v1", 0>>)>> ELSE <<>>)   \* a skipped variant is never parsed
               \o (LET w1 == v1.d = <<>> /\ v1.s.word = "true" w2 == v2.d = <<>> /\ v2.s.word = "true" IN
                   (IF (w1 \/ w2) /\ cont.s.from_word THEN <<Dg("word+from_word", <<"c", 0>>)>> ELSE <<>>)
                   \o (IF w1 /\ w2 THEN <<Dg("multi-word", <<"v1", 0>>), Dg("multi-word", <<"v2", 0>>)>> ELSE <<>>))
@@ -321,7 +321,8 @@ BodyViolations ==
     [] shape = "enum" ->
          IF elem THEN {Viol("body-unrepresentable", {<<"v1", 0>>, <<"v2", 0>>, <<"body", 0>>})}
          ELSE ElementViolations("v1", v1.items, VariantKnown, {}, V1Style) \cup ElementViolations("v2", v2.items, VariantKnown, {}, "unit")
-              \cup (IF TupleN(V1Style) /\ ~(\E i \in 1..Len(v1.items) : v1.items[i].name = "skip" /\ GoodForm("skip", v1.items[i].form))
+              \cup (IF TupleN(V1Style) /\ ~(\E i \in 1..Len(v1.items) : /\ v1.items[i].name = "skip" /\ Truthy(v1.items[i].form)      \* the skip that takes effect says yes
+                                                                     /\ \A j \in 1..(i-1) : ~(v1.items[j].name = "skip" /\ GoodForm("skip", v1.items[j].form)))
                     THEN {Viol("body-unrepresentable", {<<"v1", i>> : i \in AnyIx})} ELSE {})
               \cup (IF ((WordTrue(v1) /\ V1Style = "unit") \/ WordTrue(v2)) /\ Given("from_word")
                     THEN {Viol("word+from_word", {<<"c", i>> : i \in AnyIx} \cup {<<"v1", i>> : i \in AnyIx} \cup {<<"v2", i>> : i \in AnyIx})} ELSE {})
